@@ -579,11 +579,11 @@ async fn sql_case(conf: Conf, names: Vec<String>, tabs: Vec<Tab>, dir: String, i
     let ordered = false;   // SQL results are compared as multisets (ties make the order of equal keys unspecified)
     let out = check(&ctx, &fresh, &plan, exec, ordered).await;
     let mut kinds: Vec<String> = out.text.lines().map(|l| kind_name(l.trim_start())).collect(); kinds.sort(); kinds.dedup();
-    let mut t = out.text.clone(); if t.len() > 2500 { let k = cut(&t, 2500).len(); t.truncate(k); t.push_str("..."); }
+    let mut t = out.text.clone(); if t.len() > 12000 { let k = cut(&t, 12000).len(); t.truncate(k); t.push_str("..."); }
     println!("{{{head},\"plan_err\":null,\"nodes\":[{}],\"diff\":{},\"bytes\":{},\"rows\":{},\"skipped\":{},\"why\":{},\"plan\":{},\"ok\":{}}}",
         kinds.iter().map(|k| format!("\"{k}\"")).collect::<Vec<_>>().join(","), diff_json(&out.diff), out.bytes, out.rows,
         out.skipped.as_ref().map(|s| json_str(cut(&s, 400))).unwrap_or("null".into()),
-        out.why.as_ref().map(|s| json_str(cut(&s, 2500))).unwrap_or("null".into()), if out.ok && out.skipped.is_none() { "null".to_string() } else { json_str(&t) }, out.ok);
+        out.why.as_ref().map(|s| json_str(cut(&s, 12000))).unwrap_or("null".into()), if out.ok && out.skipped.is_none() { "null".to_string() } else { json_str(&t) }, out.ok);
 }
 
 fn run_sql_case(conf: Conf, names: Vec<String>, tabs: Vec<Tab>, dir: String, id: String, stream: String, sql: String) {
